@@ -23,7 +23,7 @@ Import ListNotations.
 From CXV Require Import Gen.TokTy Gen.ParserTables Gen.TopLoop Parse.Balanced Parse.BalancedThms Parse.Declarator Parse.DeclSpec Parse.DeclThms
   Parse.EnumList Parse.Specs Parse.VarStmt Parse.FnTail Parse.Init Parse.Members Parse.MethodTail Parse.DeclStmt Parse.MemberStmt
   Parse.ConvOp Parse.OperatorMember Parse.OperatorFn Parse.MethodImpl Parse.FriendStmt Parse.BaseClause Parse.ClassEnum Parse.FinishClass
-  Parse.Bodies Parse.NsHeader.
+  Parse.Bodies Parse.NsHeader Parse.PQName Parse.Using.
 From CXV Require Parse.DispatchLang Gen.Dispatch.
 Open Scope N_scope.
 
@@ -33,20 +33,28 @@ Definition is_class_key (t : tk) : bool := is T_class t || is T_struct t || is T
 
 (* the specifier loop of _parse_type up to a class key, and the name behind it (_parse_pqname, compound_ok).
    None: the statement is not a class statement (the other statement models take it) *)
-Fixpoint ckey_loop (m : mods) (toks : list tk) {struct toks} : option (dres (mods * N * option N * list tk)) :=
+Definition key_name (m : mods) (key : list N) (r : list tk) : dres (mods * list N * option N * list tk) :=
+  match r with
+  | x :: r1 =>
+      if memN (kty x) attribute_start_tokens || is T_DBL_COLON x then DErr 4
+      else if is T_NAME x then
+        match r1 with
+        | y :: _ => if is T_DBL_COLON y || is T_LIT_60 y then DErr 4 else DOk (m, key, Some (kval x), r1)
+        | [] => DOk (m, key, Some (kval x), r1)
+        end
+      else DOk (m, key, None, r)
+  | [] => DOk (m, key, None, r)
+  end.
+
+Fixpoint ckey_loop (m : mods) (toks : list tk) {struct toks} : option (dres (mods * list N * option N * list tk)) :=
   match toks with
   | t :: r =>
-      if is_class_key t then
+      if is_class_key t then Some (key_name m [kty t] r)
+      else if is T_enum t then
+        (* enum, enum class, enum struct *)
         Some (match r with
-              | x :: r1 =>
-                  if memN (kty x) attribute_start_tokens || is T_DBL_COLON x then DErr 4
-                  else if is T_NAME x then
-                    match r1 with
-                    | y :: _ => if is T_DBL_COLON y || is T_LIT_60 y then DErr 4 else DOk (m, kty t, Some (kval x), r1)
-                    | [] => DOk (m, kty t, Some (kval x), r1)
-                    end
-                  else DOk (m, kty t, None, r)
-              | [] => DOk (m, kty t, None, r)
+              | c :: r1 => if is T_class c || is T_struct c then key_name m [T_enum; kty c] r1 else key_name m [T_enum] r
+              | [] => key_name m [T_enum] r
               end)
       else if is_name_start t || is_ptr_ref_paren t then None
       else
@@ -66,10 +74,44 @@ Fixpoint ckey_loop (m : mods) (toks : list tk) {struct toks} : option (dres (mod
 Inductive chead :=
 | CHNot
 | CHErr (e : N)
-| CHFwd (m : mods) (key name : N) (r : list tk)
-| CHDef (m : mods) (key : N) (name : option N) (fi ex : bool) (bs : list base) (r : list tk).
+| CHFwd (m : mods) (key : list N) (name : N) (r : list tk)
+| CHDef (m : mods) (key : list N) (name : option N) (fi ex : bool) (bs : list base) (r : list tk)
+| CHEnumFwd (m : mods) (key : list N) (name : option N) (base : pq) (r : list tk)                        (* enum E : int; *)
+| CHEnum (m : mods) (key : list N) (name : option N) (base : option pq) (items : list enumerator) (r : list tk).
 
-Definition default_access (key : N) : N := if key =? T_class then T_private else T_public.
+Definition key_is (k : N) (key : list N) : bool := match key with [x] => x =? k | _ => false end.
+Definition default_access (key : list N) : N := if key_is T_class key then T_private else T_public.
+
+(* _parse_enum_decl up to the closing brace of the enumerator list; [s]: the token of _class_enum_stage2 it is entered with *)
+Definition enum_head (td : bool) (s : tk) (r : list tk) : dres (option pq * option (list enumerator) * list tk) :=
+  if is T_LIT_58 s then
+    match r with
+    | [] => DErr 2
+    | b :: _ =>
+        if memN (kty b) name_compound_start then DErr 1
+        else
+          match parse_pqname r with
+          | DErr e => DErr e
+          | DOk (q, r1) =>
+              match r1 with
+              | [] => DErr 2
+              | x :: r2 =>
+                  if is SEMI x then (if td then DErr 1 else DOk (Some q, None, r2))
+                  else if is LBRACE x then
+                    match enum_list (S (length r2)) [] r2 with
+                    | DErr e => DErr e
+                    | DOk (items, r4) => DOk (Some q, Some items, r4)
+                    end
+                  else DErr 1
+              end
+          end
+    end
+  else if is LBRACE s then
+    match enum_list (S (length r)) [] r with
+    | DErr e => DErr e
+    | DOk (items, r4) => DOk (None, Some items, r4)
+    end
+  else DErr 1.
 
 Definition class_stmt_head (td : bool) (toks : list tk) : chead :=
   match ckey_loop mods0 toks with
@@ -80,13 +122,20 @@ Definition class_stmt_head (td : bool) (toks : list tk) : chead :=
       match spec_loop m (Some 0) r with
       | DErr e => CHErr e
       | DOk (m2, _, r2) =>
-          match class_enum [key] m2 false td false r2 with
+          match class_enum key m2 false td false r2 with
           | DErr e => CHErr e
           | DOk (CEForward, r3) => match nm with Some n => CHFwd m2 key n r3 | None => CHErr 4 end
           | DOk (CEClass s, r3) =>
               match class_head (default_access key) (s :: r3) with
               | DErr e => CHErr e
               | DOk (fi, ex, bs, r4) => CHDef m2 key nm fi ex bs r4
+              end
+          | DOk (CEEnum s, r3) =>
+              match enum_head td s r3 with
+              | DErr e => CHErr e
+              | DOk (Some q, None, r4) => CHEnumFwd m2 key nm q r4
+              | DOk (b, Some items, r4) => CHEnum m2 key nm b items r4
+              | DOk (None, None, _) => CHErr 3
               end
           | DOk (_, _) => CHErr 4                      (* `struct X x;`: an elaborated type specifier *)
           end
@@ -96,13 +145,16 @@ Definition class_stmt_head (td : bool) (toks : list tk) : chead :=
 Inductive item :=
 | IC (acc : N) (it : citem)                 (* a statement of a class body *)
 | INs (it : nitem)                          (* a statement of a namespace body *)
-| IFwd (acc : N) (key name : N)             (* forward declaration *)
+| IFwd (acc : N) (key : list N) (name : N)  (* forward declaration *)
+| IEnumFwd (acc : N) (key : list N) (name : N) (base : pq)                                     (* enum E : base; *)
+| IEnum (acc : N) (m : mods) (key : list N) (name : N) (anon td : bool) (base : option pq) (items : list enumerator) (fin : fin_result)
+| IUsing (acc : N) (u : ures)
 | IClass (acc : N) (c : cdef)
 | INamespace (inline : bool) (names : list N) (members : list item)     (* namespace a::b { ... } *)
 | IAlias (alias : N) (names : list N)                                   (* namespace a = b::c; (0: a leading '::') *)
 | IExtern (linkage : N) (members : list item)                           (* extern "C" { ... } *)
 with cdef :=
-| mkCD (m : mods) (key name : N) (anon td fi ex : bool) (bs : list base) (members : list item) (fin : fin_result).
+| mkCD (m : mods) (key : list N) (name : N) (anon td fi ex : bool) (bs : list base) (members : list item) (fin : fin_result).
 
 Definition dtor_of (dt : list (N * N)) (n : N) : N := match assocN n dt with Some d => d | None => anon_base end.
 
@@ -127,6 +179,18 @@ Fixpoint body (k n fuel : nat) (dt : list (N * N)) (ctx : option (N * N)) (acc a
         | CHNot => otherwise tt
         | CHErr e => DErr e
         | CHFwd m key nm r => cont aid (IFwd acc_out key nm) r
+        | CHEnumFwd m key nm q r =>
+            match nm with
+            | Some x => cont aid (IEnumFwd acc_out key x q) r
+            | None => cont (aid + 1) (IEnumFwd acc_out key (anon_base + aid + 1) q) r
+            end
+        | CHEnum m key nm b items r =>
+            (* on_enum, then _finish_class_or_enum with the class key "enum": declarators, never an implicit field *)
+            let '(bn, anon, aid1) := match nm with Some x => (x, false, aid) | None => (anon_base + aid + 1, true, aid + 1) end in
+            match finish_class n fuel in_class td anon false m (fst encl) (snd encl) bn (m_const m) (m_volatile m) r with
+            | DErr e => DErr e
+            | DOk (fin, r3) => cont aid1 (IEnum acc_out m key bn anon td b items fin) r3
+            end
         | CHDef m key nm fi ex bs r =>
             let '(bn, anon, aid1) := match nm with Some x => (x, false, aid) | None => (anon_base + aid + 1, true, aid + 1) end in
             let inner := match nm with Some x => (x, dtor_of dt x) | None => (anon_base, anon_base) end in
@@ -136,7 +200,7 @@ Fixpoint body (k n fuel : nat) (dt : list (N * N)) (ctx : option (N * N)) (acc a
                 match r1 with
                 | cb :: r2 =>
                     if is RBRACE cb then
-                      match finish_class n fuel in_class td anon (negb (key =? T_class)) m (fst encl) (snd encl) bn (m_const m) (m_volatile m) r2 with
+                      match finish_class n fuel in_class td anon (negb (key_is T_class key)) m (fst encl) (snd encl) bn (m_const m) (m_volatile m) r2 with
                       | DErr e => DErr e
                       | DOk (fin, r3) => cont aid2 (IClass acc_out (mkCD m key bn anon td fi ex bs members fin)) r3
                       end
@@ -187,6 +251,11 @@ Fixpoint body (k n fuel : nat) (dt : list (N * N)) (ctx : option (N * N)) (acc a
               if h =? H_on_block_end then DOk ([], aid, toks)
               else if h =? 0 then skip r
               else if h =? H_parse_namespace then namespace_stmt false r
+              else if h =? H_parse_using then
+                match using_stmt in_class false fuel r with
+                | DErr e => DErr e
+                | DOk (u, r') => cont aid (IUsing acc_out u) r'
+                end
               else if h =? H_parse_inline then
                 (* the translated handler: `inline namespace` or a declaration that starts with `inline` *)
                 match DispatchLang.run Dispatch.prog_parse_inline in_class t r with
